@@ -1,6 +1,7 @@
 import GenjaxModel.Proofs.GfiCohInv
 import GenjaxModel.Proofs.GfiAssess
 import GenjaxModel.Proofs.GfiWeight
+import GenjaxModel.Proofs.GfiAssessCond
 /-!
 # C03 — update returns the density ratio, keeps unconstrained choices, and is invertible
 -/
@@ -31,7 +32,8 @@ theorem C03_update_weight_partial
   update_weight_noswitch P cfg g args0 t ht x args t' w d h hs
 
 /-- In terms of `assess` (Cond-free programs, specification variant of the Cond flag — which a
-    Cond-free program never consults): weight = log p(new choices; new args) − log p(old choices; old args). -/
+    Cond-free program never consults): weight = log p(new choices; new args) − log p(old choices; old args).
+    Superseded by `C03_update_weight_assess` below (every program). -/
 theorem C03_update_weight_assess_partial (hc : cfg.condSwitchCorrection = true)
     (g : GF) (hg : g.condFree = true)
     (args0 : List Val) (t : Tr R) (ht : g.Coh P args0 t) (x0 : CM) (hx0 : t.choices = some x0)
@@ -45,5 +47,53 @@ theorem C03_update_weight_assess_partial (hc : cfg.condSwitchCorrection = true)
   refine ⟨x1, _, _, _, _, hx1, h1, h0, ?_⟩
   have hw : w = t.score + -t'.score := update_weight_spec P cfg hc g args0 t ht x args t' w d h
   rw [hw]; abel
+
+/-- In terms of `assess`, EVERY program (Cond at any depth), specification variant of Cond.update
+    (`cfg.condSwitchCorrection`): weight = log p(new choices; new args) − log p(old choices; old args),
+    ALSO when the update switches the branch taken by a Cond.  `hx0`, `hx1` = "`get_choices()` does
+    not raise" on the old / new trace.  Supersedes `C03_update_weight_assess_partial`. -/
+theorem C03_update_weight_assess (hc : cfg.condSwitchCorrection = true)
+    (g : GF) (args0 : List Val) (t : Tr R) (ht : g.Coh P args0 t) (x0 : CM) (hx0 : t.choices = some x0)
+    (x : Option CM) (args : List Val) (t' : Tr R) (w : R) (d : Option CM)
+    (h : g.update P cfg t x args = some (t', w, d)) (x1 : CM) (hx1 : t'.choices = some x1) :
+    ∃ lp1 lp0, g.assess P x1 args = some (lp1, t'.retval) ∧
+      g.assess P x0 args0 = some (lp0, t.retval) ∧ w = lp1 + -lp0 := by
+  have h1 := coh_assess P g args t' (update_coh P cfg g t x args t' w d h) x1 hx1
+  have h0 := coh_assess P g args0 t ht x0 hx0
+  refine ⟨_, _, h1, h0, ?_⟩
+  have hw : w = t.score + -t'.score := update_weight_spec P cfg hc g args0 t ht x args t' w d h
+  rw [hw]; abel
+
+/-- the updated trace's choice map has the program's static skeleton (exists iff that exists) -/
+theorem C03_update_choices_skel (g : GF) (t : Tr R) (x : Option CM) (args : List Val) (t' : Tr R)
+    (w : R) (d : Option CM) (h : g.update P cfg t x args = some (t', w, d)) :
+    t'.choices.map CM.skel = g.skel :=
+  update_choices_skel P cfg g t x args t' w d h
+
+/-- the same with the conclusion of `C03_update_weight_assess_partial`, for programs whose Cond
+    branches are compatible (the new trace's choice map then exists) -/
+theorem C03_update_weight_assess_compat (hc : cfg.condSwitchCorrection = true)
+    (g : GF) (hs : g.skel.isSome)
+    (args0 : List Val) (t : Tr R) (ht : g.Coh P args0 t) (x0 : CM) (hx0 : t.choices = some x0)
+    (x : Option CM) (args : List Val) (t' : Tr R) (w : R) (d : Option CM)
+    (h : g.update P cfg t x args = some (t', w, d)) :
+    ∃ x1 lp1 lp0 r1 r0, t'.choices = some x1 ∧ g.assess P x1 args = some (lp1, r1) ∧
+      g.assess P x0 args0 = some (lp0, r0) ∧ w = lp1 + -lp0 := by
+  obtain ⟨x1, hx1⟩ := choices_of_skel (update_choices_skel P cfg g t x args t' w d h) hs
+  obtain ⟨lp1, lp0, h1, h0, hw⟩ :=
+    C03_update_weight_assess P cfg hc g args0 t ht x0 hx0 x args t' w d h x1 hx1
+  exact ⟨x1, lp1, lp0, _, _, hx1, h1, h0, hw⟩
+
+/-- non-vacuity, with a branch switch: the Cond program `condExG` simulated with check = 1 and updated
+    to check = 0 with `"x"` constrained; all hypotheses hold and the weight is the density
+    difference (9 → 35). -/
+example : ∃ t t' w d x0 x1, condExG.simulate condExP [.num 1, .num 7] = some t ∧
+    t.choices = some x0 ∧
+    condExG.update condExP Cfg.spec t (some (.node (.cons "x" (.leaf (.num 10)) .nil)))
+      [.num 0, .num 7] = some (t', w, d) ∧
+    t'.choices = some x1 ∧
+    condExG.assess condExP x0 [.num 1, .num 7] = some (9, .num 4) ∧
+    condExG.assess condExP x1 [.num 0, .num 7] = some (43, t'.retval) ∧ w = 43 + -9 :=
+  ⟨_, _, _, _, _, _, rfl, rfl, rfl, rfl, rfl, rfl, rfl⟩
 
 end Genjax
